@@ -80,6 +80,23 @@ CLAIMED = {
              "a diagnostic; decode closed (Enum(value), check function with raising fall-through, const comparison), encode "
              ".value/identity; member values reach the class with a single escaping. Not decided: Enum(value) itself.",
         ref="DESIGN.md §4 C14"),
+    "C13": dict(
+        technique="sibling rules over the 14 builders / convert_value implementations (AST + CFG dominance), typed-comparison check from abstract-interpreter types, label analysis of python_code, truth tables on the re-validation guards",
+        text="Structural clauses: every builder passes its default through convert_value, returns a PropertyError before "
+             "construction/registration and stores the converted value; typed convert_value implementations reject by default, "
+             "accept only under type/membership tests, exclude bool where int is accepted; the const check compares converted "
+             "Value objects; python_code is built not pasted (16 construction sites); the $ref route converts whenever a wrapper "
+             "exists (guard truth table) and errors before evolve; the allOf merge converts with the merged class (def-use). Not "
+             "decided: value equality of the evaluated default.",
+        ref="DESIGN.md §4 C13"),
+    "C15": dict(
+        technique="structural rules on merge_properties/_process_properties/_process_models: mirrored type-pair branches, typed operands of the enum subset test, must-pass-through on the allOf loop CFG, def-use of required_set, mutation scan of shared property objects",
+        text="Structural clauses: each type-pair branch has its mirror with the same (more specific) base; enum narrowing "
+             "compares (name, value) pairs in both directions; fall-through is an error; requiredness is a disjunction; inline "
+             "members' required/properties are collected on every path; required_set reaches every property (insertion or final "
+             "partition, on a copy); inherited property objects are never mutated; re-queue and separator-anchored self-reference "
+             "test. Not decided: round trip of composed instances.",
+        ref="DESIGN.md §4 C15"),
 }
 
 NOT_APPLICABLE = {
